@@ -347,7 +347,14 @@ func scenarioMachine(c *hlib.RunCtx) *hlib.Violation {
 	for r := 0; r < rounds && m.viol == nil; r++ {
 		m.round = r
 		// time passes
-		s.Advance(time.Duration(1+t.Draw(9))*24*time.Hour + time.Duration(t.Draw(3600))*time.Second)
+		if r > 0 && t.Bool(1, 10) {
+			// the machine's clock is set back (a wrong date was corrected): reports
+			// built meanwhile are now dated in the future
+			s.StepBack(time.Duration(1+t.Draw(20))*24*time.Hour + time.Duration(t.Draw(3600))*time.Second)
+			s.Probe("clock-set-back")
+		} else {
+			s.Advance(time.Duration(1+t.Draw(9))*24*time.Hour + time.Duration(t.Draw(3600))*time.Second)
+		}
 		// new counter files
 		nfiles := t.Draw(4)
 		if r == 0 {
